@@ -173,10 +173,8 @@ theorem delta_convertFrom {p p' : Pool} {self other c' : Cont} {so : Bool}
   split at h
   · unfold Cont.svConvert at h
     split at h
-    · cases h
-    · split at h
-      · exact delta_cloneFrom h hp
-      · exact delta_cloneCross h hp
+    · exact delta_cloneFrom h hp
+    · exact delta_cloneCross h hp
   · exact delta_assign h hp
 
 end FeatModel.Pool
